@@ -184,6 +184,7 @@ fn run_op(op: &Value, ts: &TxnSet<'_>, settings: &mut Settings) -> Res<Value> {
         "register" => Ok(raw(verif::register_json(ts, settings, &ras)?)),
         "pricectx" => Ok(raw(verif::price_ctx_json(ts, settings))),
         "pricedb" => Ok(raw(verif::price_db_json(settings))),
+        "settings" => Ok(raw(verif::settings_json(settings))),
         "text_balance" => {
             let mut w: Vec<u8> = Vec::new();
             BalanceReporter::try_from(&*settings)?.write_txt_report(settings, &mut w, ts)?;
